@@ -323,7 +323,7 @@ def gen_tpoint(rng, s, base_l):
         return [rng.choice([0.0, 1.0, float(np.nextafter(1.0, 0.0)), float(np.nextafter(0.0, 1.0)), rng.random(), rng.random()])]
     if s["prior"] == "uniform":
         if s["k"] == "int":
-            return [rng.choice([float(lo), float(hi), rng.randint(lo, hi) + rng.choice([0.0, 0.5, 0.25, -0.5])])] if True else None
+            return [min(float(hi), max(float(lo), rng.choice([float(lo), float(hi), rng.randint(lo, hi) + rng.choice([0.0, 0.5, 0.25, -0.5])])))]
         return [rng.choice([lo, hi, gen_point(rng, s)])]
     a, b = base_l(s["lo"]), base_l(s["hi"])
     return [rng.choice([a, b, float(np.nextafter(b, a)), float(np.nextafter(a, b)), rng.uniform(a, b)])]
